@@ -224,11 +224,13 @@ def build_programs(root):
     P("shared-no-undefined", "layout", objs, extra=["-shared", "--no-undefined"], k=3)
     # 14./15. the SAME undefined symbol referenced from two objects whose processing takes very different time (one sits behind
     # 150000 relocations): which reference is named must not depend on who gets there first
-    for nm, extra, fail in (("undef-same-symbol", [], True), ("warn-same-symbol", ["--warn-unresolved-symbols"], False)):
+    for nm, extra, fail, order in (("undef-same-symbol-hl", [], True, ["heavy", "light"]), ("undef-same-symbol-lh", [], True, ["light", "heavy"]),
+                                   ("warn-same-symbol-lh", ["--warn-unresolved-symbols"], False, ["light", "heavy"])):
         d = os.path.join(root, nm); os.makedirs(d)
-        heavy = ".globl heavy\n.text\nheavy:\n" + "    call helper\n" * 1200000 + "    call missing_everywhere\n    ret\n"
-        light = ".globl light\n.text\nlight:\n    call missing_everywhere\n    ret\n.globl helper\nhelper: ret\n"
-        objs = [_main(d, ["heavy", "light"]), _asm(d, "heavy", heavy), _asm(d, "light", light)]
+        heavy = ('.section .data.blob,"aw"\nblob: .quad 0\n.section .text.heavy,"ax"\n.globl heavy\nheavy:\n'
+                 + "    lea blob(%rip), %rax\n" * 1200000 + "    call missing_everywhere\n    ret\n")
+        light = '.section .text.light,"ax"\n.globl light\nlight:\n    call missing_everywhere\n    ret\n'
+        objs = [_main(d, order), _asm(d, "heavy", heavy), _asm(d, "light", light)]
         P(nm, "layout" if fail else "warn", objs, extra=extra, fail=fail, k=2)
     return progs
 
